@@ -181,8 +181,18 @@ def rule_rebuild(prog):
 def rule_strip_set(prog):
     out = Out("STRIP-SET")
     c = prog.front
-    rm = [b for b in c.bodies if b["name"] == "remove_messages" and "affected" in b["p"]]
     aff = prog.body("spl_frontend::parser::utility::affected")
+    # by role: the fn(&mut AstInfo) of the parser's utility module that `affected` (or a helper of it) hands to traverse_mut
+    rm = [b for b in c.bodies if b["name"] == "remove_messages" and "affected" in b["p"]]
+    if not rm and aff is not None:
+        cand = set()
+        for n_ in hir.nodes_deep(prog, aff["body"], 2, crate=c):
+            if n_.get("k") == "MethodCall" and n_["m"] == "traverse_mut":
+                for a_ in n_["args"]:
+                    d_ = hir.path_def(hir.strip(a_))
+                    if d_ and (d_.get("rp") or d_.get("p")):
+                        cand.add(d_.get("rp") or d_.get("p"))
+        rm = [b for b in c.bodies if b["p"] in cand and b["k"] in ("fn", "assoc_fn")]
     if len(rm) != 1 or aff is None:
         out.missing("parser::utility::affected::remove_messages")
         return out
@@ -432,7 +442,13 @@ def look_ahead_sets(prog):
                     dd = n["res"]
                     if dd.get("k") == "Def" and (dd.get("rp") or dd["p"]) in tags:
                         toks.append(tags[dd.get("rp") or dd["p"]])
-                elems.append(("seq", tuple(toks)))
+                # the head of the sequence is what its first parser can start with (evaluated, not read off the traversal order)
+                heads = sorted(t_ for t_ in _FirstSet(prog).parser(inner, b, 0) if t_ not in ("", "?"))
+                if heads:
+                    for h_ in heads:
+                        elems.append(("seq", (h_,) + tuple(t_ for t_ in toks if t_ != h_)))
+                else:
+                    elems.append(("seq", tuple(toks)))
         sets[b["name"]] = elems
         bodies[b["name"]] = b
     return sets, bodies
@@ -451,6 +467,13 @@ def rule_sync_sets(prog):
         for k in want:
             if ("parser::" + k + " as") in b["d"] or (k + " as parser::Parser>::parse::") in b["d"]:
                 owner = k
+        if owner is None and "sig_out" in b:
+            # a recovery function of its own (hoisted out of the node's parser): it is the recovery of the node type it yields
+            so_ = c.tstr(b["sig_out"])
+            import re as _re
+            hits_ = [k for k in want if _re.search(r"(?<![A-Za-z0-9_])" + k + r"(?![A-Za-z0-9_])", so_)]
+            if len(hits_) == 1:
+                owner = hits_[0]
         found.setdefault(owner, []).append((last(la) if la else None, c.loc(n["sp"]), b["d"]))
     used = {k: found[k][0][0] for k in want if len(found.get(k, [])) == 1 and found[k][0][0] in sets}
     if set(used) != set(want):
@@ -485,16 +508,14 @@ def rule_sync_sets(prog):
     if stp:
         alts_ = [n_ for n_ in hir.nodes(stp[0]["body"], "Call") if (hir.callee(n_) or "").endswith("nom::branch::alt")]
         first = set()
+        fs_ = _FirstSet(prog)
         if alts_:
             rec = set(rb["p"] for rb, _, _ in recovery_sites(prog))
             for el in hir.strip(alts_[-1]["args"][0]).get("es", []):
                 d_ = hir.path_def(hir.strip(el))
                 if d_ and (d_.get("rp") or d_.get("p")) in rec:
                     continue
-                for x in hir.nodes_deep(prog, el, 3, crate=c):
-                    if x.get("k") == "Path" and x["res"].get("k") == "Def" and (x["res"].get("rp") or x["res"].get("p")) in tags_:
-                        first.add(tags_[x["res"].get("rp") or x["res"].get("p")])
-                        break
+                first |= set(t_ for t_ in fs_.parser(el, stp[0], 0) if t_ not in ("", "?"))
         stmt_closure = closure(names["stmt"])
         toks_in = set(x for x in stmt_closure if isinstance(x, str))
         seq_heads = set(x[0] for x in stmt_closure if isinstance(x, tuple) and x)
@@ -572,18 +593,22 @@ def _error_inputs_ok(prog, b, inp_id, depth=2):
                 continue
             ids = _param_ids(hb)
             for i, a_ in enumerate(call["args"]):
-                if i < len(ids) and ids[i] is not None and _is_local(a_, inp_id):
+                # (the input itself, or a clone of it kept for the error path: `let original_input = input.clone()`)
+                if i < len(ids) and ids[i] is not None and (_is_local(a_, inp_id) or _resolves_to(a_, defs, lambda e: _is_local(e, inp_id))):
                     n2, ok2 = _error_inputs_ok(prog, hb, ids[i], depth - 1)
                     n += n2
                     ok = ok and ok2
     return n, ok
 
 
-def _resumes_at_error_input(prog, owner, node, err_id, depth=2):
-    """`node` (an error arm binding err) ends in Ok((err.input, ..)) — directly or inside a helper that receives err."""
+def _resumes_at_error_input(prog, owner, node, err_id, depth=2, direct=False):
+    """`node` (an error arm binding err) ends in Ok((err.input, ..)) — directly or inside a helper that receives err.
+    direct: err_id is the binding of the error's `input` field itself (`Err(Error(ParserError { input, .. }))`)."""
     defs = _let_defs(owner["body"])
 
     def is_err_input(e):
+        if direct and _is_local(e, err_id):
+            return True
         return e.get("k") == "Field" and e["name"] == "input" and _is_local(e["base"], err_id)
 
     for call in hir.nodes(node, "Call"):
@@ -633,9 +658,25 @@ def rule_recovery_noconsume(prog):
                 binds = list(hir.pat_bindings(arm["pat"]))
                 # the arm that binds the whole ParserError (not the `Affected{input}` destructuring arm)
                 errb = [x for x in binds if "error::ParserError" in c.tstr(x["bt"])]
+                direct = False
                 if len(errb) != 1:
-                    continue
-                good = _resumes_at_error_input(prog, ex, arm["body"], errb[0]["id"])
+                    # ... or the arm that takes the error apart and binds its `input` (not the `kind: Affected` retry arm)
+                    errb = []
+                    def rec_(p_):
+                        p_ = hir.pat_strip(p_)
+                        if not isinstance(p_, dict):
+                            return
+                        if p_.get("k") == "Struct" and (hir.adt_path(c, p_["t"]) or "").endswith("error::ParserError"):
+                            flds = {f_["name"]: hir.pat_strip(f_["pat"]) for f_ in p_["fields"]}
+                            if "kind" not in flds and flds.get("input", {}).get("k") == "Binding":
+                                errb.append(flds["input"])
+                        for q_ in p_.get("pats") or []:
+                            rec_(q_)
+                    rec_(arm["pat"])
+                    direct = True
+                    if len(errb) != 1:
+                        continue
+                good = _resumes_at_error_input(prog, ex, arm["body"], errb[0]["id"], direct=direct)
                 takes = [x for x in hir.nodes_deep(prog, arm["body"], 2) if x.get("k") in ("Call", "MethodCall") and
                          ((hir.callee(x) or "").endswith("::advance") or (hir.callee(x) or "").endswith("complete::take"))]
                 n += 1
@@ -751,13 +792,13 @@ def rule_recovery_noconsume(prog):
         out.missing("expect(..) call sites in the parser (found %d)" % n_exp)
     # declaration keywords are consumed only by the declaration parsers and look_ahead::global_dec
     for kw, owner in (("proc", "ProcedureDeclaration"), ("type", "TypeDeclaration")):
-        path = "spl_frontend::parser::keywords::" + ("r#type" if kw == "type" else kw)
-        alt = "spl_frontend::parser::keywords::" + kw
+        # (the token parser of the keyword, by role: wherever the tag_parser! family lives)
+        kw_paths = set(p_ for p_, v_ in tags.items() if v_ == kw.capitalize())
         users = []
         for b in c.bodies:
             for n_ in hir.nodes(b["body"], "Path"):
                 r = n_["res"]
-                if r.get("k") == "Def" and r["p"] in (path, alt):
+                if r.get("k") == "Def" and (r["p"] in kw_paths or r.get("rp") in kw_paths):
                     users.append((b, n_))
         if not users:
             out.missing("keywords::" + kw)
@@ -814,6 +855,14 @@ class _FailInput:
             return False
         n_lits, ok = _error_inputs_ok(self.prog, b, inp)
         has_map_err = any(x.get("k") == "MethodCall" and x["m"] == "map_err" for x in hir.nodes(b["body"]))
+        if not has_map_err:
+            # the same written out: no parser error leaves through `?`, and a `match` replaces every `Err(..)` by the rebuilt error
+            tries = [x for x in hir.nodes(b["body"], "Try") if "ParserError" in self.c.tstr(hir.strip(x["e"])["t"])]
+            err_arms = [a_ for m_ in hir.nodes(b["body"], "Match") for a_ in m_["arms"]
+                        if any(v.endswith("Result::Err") for v in hir.pat_variants_all(a_["pat"]))
+                        and not list(hir.pat_bindings(a_["pat"]))
+                        and any((s_.get("adt") or "").endswith("error::ParserError") for s_ in hir.nodes(a_["body"], "Struct"))]
+            has_map_err = not tries and bool(err_arms)
         return n_lits > 0 and ok and has_map_err
 
     def function(self, b, depth):
@@ -937,6 +986,78 @@ class _FailInput:
         return None
 
 
+class _FirstSet(_FailInput):
+    """Abstract evaluation of `which tokens can be the first token (comments aside) a parser expression consumes`: a set of
+    TokenType variant names, "?" standing for a part that was not understood, "" for `may succeed without consuming`."""
+
+    def combine(self, vs):
+        res = set()
+        for v in vs:
+            res |= (v if v is not None else {"?"})
+        return res
+
+    def function(self, b, depth):
+        if b["p"] in self.memo:
+            return self.memo[b["p"]]
+        self.memo[b["p"]] = set()      # a parser reaches itself again only behind a consumed token
+        if b["p"] in self.tags:
+            r = {self.tags[b["p"]]}
+        else:
+            r = self.applications(b["body"], b, [q for q in b["params"]], depth)
+        self.memo[b["p"]] = r
+        return r
+
+    def path(self, e, b, depth):
+        d = hir.path_def(e)
+        p_ = (d or {}).get("rp") or (d or {}).get("p")
+        if p_ in self.tags:
+            return {self.tags[p_]}
+        r = _FailInput.path(self, e, b, depth)
+        return {"?"} if r is None else r
+
+    def parser(self, e, b, depth):
+        e = hir.strip_ref(e)
+        if depth > 60:
+            return {"?"}
+        k = e.get("k")
+        if k == "Closure":
+            return self.applications(e["body"], b, e["params"], depth)
+        if k == "Call":
+            cal = hir.callee(e) or ""
+            nm = last(cal)
+            args = e["args"]
+            if cal.endswith("branch::alt") and args:
+                es = hir.strip(args[0]).get("es") or []
+                return self.combine(self.parser(x, b, depth + 1) for x in es)
+            if nm == "affected" and len(args) >= 2:
+                return self.parser(args[1], b, depth + 1)
+            if nm == "success":
+                return {""}
+            if nm == "expect" and len(args) >= 2:
+                return self.parser(args[1], b, depth + 1) | {""}
+            if nm in ("opt", "many0") and args:
+                if self.is_comment_skip(e):
+                    return {""}
+                return self.parser(args[0], b, depth + 1) | {""}
+            if nm in self.WRAP0 and args:
+                return self.parser(args[0], b, depth + 1)
+            if nm in self.SEQ and args:
+                elems = (hir.strip(args[0]).get("es") or []) if nm == "tuple" else args
+                res = set()
+                for el in elems:
+                    f = self.parser(el, b, depth + 1)
+                    res |= f - {""}
+                    if "" not in f:
+                        return res
+                return res | {""}
+            hb = hir.local_callee_body(self.prog, e)
+            if hb is not None and any("TokenStream" in self.c.tstr(pp["bt"]) for q in hb["params"] for pp in hir.pat_bindings(q)):
+                return self.function(hb, depth + 1)
+            return {"?"}
+        r = _FailInput.parser(self, e, b, depth)
+        return {"?"} if r is None else r
+
+
 # ------------------------------------------------------------------ PARSE-SHAPE
 
 def rule_parse_shape(prog):
@@ -946,6 +1067,12 @@ def rule_parse_shape(prog):
     for b in c.bodies:
         if "ast::Expression as parser::Parser>::parse::" in b["d"]:
             fns[b["name"]] = b
+    if not fns:
+        # the expression grammar moved out of Expression::parse into functions of the parser module
+        for b in c.bodies:
+            if b["p"].startswith("spl_frontend::parser") and b["k"] == "fn" and b["name"].startswith("parse_") and "/tests" not in c.file_of(b["sp"]) \
+                    and "Expression" in c.tstr(b.get("sig_out", 0) or 0):
+                fns.setdefault(b["name"], b)
     need = ("parse_bracketed", "parse_primary", "parse_unary", "parse_factor", "parse_rhs", "parse_mul", "parse_add",
             "parse_comparison")
     if any(n not in fns for n in need):
@@ -1022,8 +1149,21 @@ def rule_parse_shape(prog):
                 rights == [right_want], loc,
                 "found %s — a right operand parsed at the same level makes the operator right-associative" % rights)
         has_while = "while" in loop_kind(b)
+        verdict_ = has_while == loops
+        if b is not fns[lvl]:
+            # a shared level helper whose loop is left by a `break` under a test of one of its parameters (`Chain::AtMostOne`):
+            # how often the operator is applied is decided by the argument, which this clause does not evaluate
+            pids_ = {bd["id"] for q in b["params"] for bd in hir.pat_bindings(q)}
+            for lp_ in hir.nodes(b["body"]):
+                if lp_.get("k") in ("While", "Loop"):
+                    for br_, prs_ in hir.walk(lp_["body"]):
+                        if br_.get("k") == "Break" and any(
+                                pr_.get("k") in ("If", "Match") and any((hir.path_local(x_) or {}).get("id") in pids_
+                                                                        for x_ in hir.nodes(pr_.get("cond") or pr_.get("scrut") or {}))
+                                for pr_ in prs_):
+                            verdict_ = None
         out.add("Expression::parse::" + lvl, "operator applied %s" % ("repeatedly (left-assoc loop)" if loops else "at most once"),
-                has_while == loops, loc, "comparison is non-associative; + - * / fold to the left in a loop")
+                verdict_, loc, "comparison is non-associative; + - * / fold to the left in a loop")
         # the accumulated expression is passed as lhs
         acc = None
         for n in hir.nodes(b["body"], "Let"):
@@ -1045,6 +1185,9 @@ def rule_parse_shape(prog):
     top = [b for b in c.bodies if b["d"].endswith("<ast::Expression as parser::Parser>::parse")]
     if top:
         r = refs_top(top[0])
+        # (the level functions may live beside Expression::parse instead of inside it)
+        r += [last(n_["res"]["p"]) for n_ in hir.nodes(top[0]["body"], "Path")
+              if n_["res"].get("k") == "Def" and any(n_["res"].get("p") == fb_["p"] for fb_ in fns.values())]
         out.add("Expression::parse", "entry is parse_comparison", "parse_comparison" in r, c.loc(top[0]["sp"]), "found %s" % r)
     # IfStatement: opt(preceded(keywords::else, ..)) after the branch parser => else binds to innermost if
     ifp = [b for b in c.bodies if b["d"].endswith("<ast::IfStatement as parser::Parser>::parse")]
@@ -1216,41 +1359,62 @@ def rule_eof_once(prog):
     ctor = TT + "::Eof"
     sites = {}
     for b in c.bodies:
-        if not c.file_of(b["sp"]).endswith("lexer.rs"):
+        f_ = c.file_of(b["sp"])
+        if not (f_.endswith("lexer.rs") or "/lexer/" in f_) or "/tests" in f_:
             continue
         for n in hir.nodes(b["body"], "Path"):
             if n["res"].get("ctor_of") == ctor:
                 sites.setdefault(b["d"], []).append(c.loc(n["sp"]))
+    # (by role: exactly one function of the lexer builds the Eof token - that function is the end-of-input lexer)
     out.add("lexer", "TokenType::Eof is constructed only by <Eof as Lexer>::lex",
-            set(sites) == {"<lexer::Eof as lexer::Lexer>::lex"}, "", "construction sites: %s" % sites)
+            len(sites) == 1, "", "construction sites: %s" % sites)
     lex = prog.body("spl_frontend::lexer::lex")
     upd = prog.body("spl_frontend::lexer::update")
     if not lex or not upd:
         out.missing("lexer::lex / lexer::update")
         return out
-    eoflex = [b for b in c.bodies if b["d"] == "<lexer::Eof as lexer::Lexer>::lex"]
-    uses = [n for n in hir.nodes(lex["body"], "Path") if eoflex and eoflex[0]["p"] in (n["res"].get("p"), n["res"].get("rp"))]
-    pushes = [n for n in hir.nodes(lex["body"], "MethodCall") if n["m"] == "push"]
+    eoflex = [b for b in c.bodies if b["d"] in sites] if len(sites) == 1 else []
+    lex_nodes = list(hir.nodes_deep(prog, lex["body"], 1, crate=c))
+    uses = [n for n in lex_nodes if n.get("k") == "Path" and eoflex and eoflex[0]["p"] in (n["res"].get("p"), n["res"].get("rp"))]
+    pushes = [n for n in lex_nodes if n.get("k") == "MethodCall" and n["m"] == "push" and "Token" in c.tstr(hir.strip(n["recv"])["t"])]
     out.add("lexer::lex", "lexes Eof once and pushes it once", len(uses) == 1 and len(pushes) == 1, c.loc(lex["sp"]),
-            "Eof::lex used %d times, %d push" % (len(uses), len(pushes)))
-    # update: pop()s the old Eof (checked to be Eof) and the final concat ends with vec![eof]
+            "Eof lexer used %d times, %d push" % (len(uses), len(pushes)))
+    # update: pop()s the old Eof (checked to be Eof) and the token vector that is handed back ends with it: the final concat ends
+    # with vec![eof], or the last thing appended to the result is the popped token
     pops = [n for n in hir.nodes(upd["body"], "MethodCall") if n["m"] == "pop"]
     concat = [n for n in hir.nodes(upd["body"], "MethodCall") if n["m"] == "concat"]
-    ok = False
+    popped = set()
+    for l in hir.nodes(upd["body"], "Let"):
+        if l.get("init") is not None and any(x["m"] == "pop" for x in hir.nodes(l["init"], "MethodCall")):
+            for bd in hir.pat_bindings(l["pat"]):
+                popped.add(bd["id"])
+    # (`let eof = match tokens.pop() { Some(eof) if .. => shift(eof, ..), .. }`: the let binding stands for the popped token)
+    ok = None
     if concat:
         arr = hir.strip_ref(concat[0]["recv"])
         es = arr.get("es", [])
         if es:
             tail = es[-1]
-            popped = set()
-            for l in hir.nodes(upd["body"], "Let"):
-                if l.get("init") is not None and any(x["m"] == "pop" for x in hir.nodes(l["init"], "MethodCall")):
-                    for bd in hir.pat_bindings(l["pat"]):
-                        popped.add(bd["id"])
             locs = [n for n in hir.nodes(tail, "Path") if n["res"].get("k") == "Local" and n["res"]["id"] in popped]
             ok = bool(locs)
-    out.add("lexer::update", "old Eof is popped once and re-appended last", len(pops) == 1 and ok, c.loc(upd["sp"]),
-            "%d pop(), concat ends with eof: %s" % (len(pops), ok))
+    else:
+        blk = hir.strip(upd["body"])
+        stmts = blk["b"]["stmts"] if blk.get("k") == "BlockExpr" else []
+        appends = [m for st in stmts for m in hir.nodes(st, "MethodCall")
+                   if m["m"] in ("push", "extend", "append", "extend_from_slice") and "Token" in c.tstr(hir.strip(m["recv"])["t"])
+                   and not any(pr.get("k") in ("ForLoop", "While", "Loop", "Closure") for pr in [])]
+        # the appends at statement level of the function (not inside loops): the last one decides
+        top_appends = []
+        for st in stmts:
+            inner = hir.stmt_inner(st)
+            if inner is not None and inner.get("k") == "MethodCall" and inner["m"] in ("push", "extend", "append", "extend_from_slice") and \
+                    "Token" in c.tstr(hir.strip(inner["recv"])["t"]):
+                top_appends.append(inner)
+        if top_appends:
+            lastm = top_appends[-1]
+            ok = lastm["m"] == "push" and any(n["res"].get("k") == "Local" and n["res"]["id"] in popped for a_ in lastm["args"] for n in hir.nodes(a_, "Path"))
+    out.add("lexer::update", "old Eof is popped once and re-appended last", None if ok is None else (len(pops) == 1 and ok), c.loc(upd["sp"]),
+            "%d pop(), result ends with eof: %s" % (len(pops), ok))
     return out
 
 
@@ -1301,8 +1465,22 @@ def rule_tokchange_args(prog):
             hb = hir.local_callee_body(prog, e)
             if hb is not None and hb["_crate"] is c:
                 blk = hir.strip(hb["body"])
-                tail = blk["b"].get("expr") if blk.get("k") == "BlockExpr" else None
-                return tail is not None and is_length(tail, depth + 1)
+                tail = blk["b"].get("expr") if blk.get("k") == "BlockExpr" else blk
+                if tail is None:
+                    return False
+                if is_length(tail, depth + 1):
+                    return True
+                # ... or a counter: a local that starts at a literal and is only ever advanced by lengths (`n += 1` in a loop)
+                t_ = hir.strip_ref(hir.strip(tail))
+                while t_.get("k") == "MethodCall" and t_["m"] in ("min", "max", "clamp") and all(is_length(a_, depth + 1) for a_ in t_["args"]):
+                    t_ = hir.strip_ref(hir.strip(t_["recv"]))
+                pl_ = hir.path_local(t_)
+                if pl_:
+                    inits = [l_ for l_ in hir.nodes(hb["body"], "Let") if l_["pat"].get("k") == "Binding" and l_["pat"]["id"] == pl_["id"]]
+                    writes = [a_ for a_ in hir.nodes(hb["body"]) if a_.get("k") in ("Assign", "AssignOp") and
+                              (hir.path_local(hir.strip(a_["l"])) or {}).get("id") == pl_["id"]]
+                    return len(inits) == 1 and inits[0].get("init") is not None and hir.lit_value(hir.strip(inits[0]["init"])) is not None and \
+                        all(a_.get("k") == "AssignOp" and a_["op"] in ("+=", "-=") and is_length(a_["r"], depth + 1) for a_ in writes)
         return False
 
     def old_abs(e, body, dmap, pmap, depth=0):
@@ -1475,6 +1653,24 @@ def rule_reuse(prog):
         out.missing("parser::utility::affected")
         return out
     scope = [b for b in c.bodies if b["p"] == aff["p"] or b["p"].startswith(aff["p"] + "::")]
+    # ... and the functions of the same module it calls (its nested helpers may be hoisted to module level, the decision may sit in
+    # a function of its own)
+    mod_prefix = aff["p"].rsplit("::", 1)[0] + "::"
+    frontier = list(scope)
+    for _ in range(3):
+        nxt_ = []
+        for b_ in frontier:
+            for n_ in hir.nodes(b_["body"]):
+                if n_.get("k") in ("Call", "MethodCall"):
+                    hb_ = hir.local_callee_body(prog, n_)
+                    if hb_ is not None and hb_["_crate"] is c and hb_["p"].startswith(mod_prefix) and hb_ not in scope and \
+                            hb_["k"] in ("fn", "assoc_fn") and c.file_of(hb_["sp"]) == c.file_of(aff["sp"]):
+                        # only private helpers of `affected`: every caller is in the scope already
+                        callers_ = hir.callers_map(prog, c.name).get(hb_["p"], set())
+                        if callers_ and callers_ <= {x_["p"] for x_ in scope} | {x_["p"] for x_ in nxt_}:
+                            scope.append(hb_)
+                            nxt_.append(hb_)
+        frontier = nxt_
     # ---- (aligned)
     ops = set()
     n_cmp = 0
@@ -1586,6 +1782,46 @@ def rule_reuse(prog):
                                 iff = hir.strip(iff) if iff else None
                                 if iff is not None and iff.get("k") == "If" and cond_inspects(iff["cond"]) and not negated(iff["cond"]) and \
                                         any(True for _ in hir.nodes(iff["then"], "Ret")):
+                                    guard_ok = True
+        if not guard_ok:
+            # the decision is computed by a function of its own (`match Reuse::decide(..) { .. Keep => <reuse> }`): the arm of the
+            # reuse exit names a variant; in the deciding function an earlier, un-negated test of the node's syntax errors returns a
+            # different answer
+            for b in scope:
+                for x, parents in hir.walk(b["body"]):
+                    if x is not advances[0]:
+                        continue
+                    chain = list(parents) + [x]
+                    for i_, pr in enumerate(chain[:-1]):
+                        if pr.get("k") != "Match" or chain[i_ + 1].get("k") != "Arm":
+                            continue
+                        keep = set(hir.pat_variants_all(chain[i_ + 1]["pat"]))
+                        sc_ = hir.strip(pr["scrut"])
+                        db = hir.local_callee_body(prog, sc_) if sc_.get("k") in ("Call", "MethodCall") else None
+                        if db is None or db not in scope or not keep:
+                            continue
+                        ddefs = _let_defs(db["body"])
+
+                        def d_inspects(cond):
+                            conds = [cond]
+                            for pth in hir.nodes(cond, "Path"):
+                                pl = hir.path_local(pth)
+                                if pl and pl["id"] in ddefs:
+                                    conds.append(ddefs[pl["id"]])
+                            for cd in conds:
+                                for m_ in hir.nodes(cd):
+                                    pats = [a_["pat"] for a_ in m_["arms"]] if m_.get("k") == "Match" else [m_["pat"]] if m_.get("k") == "LetExpr" else []
+                                    if any(v.endswith("ErrorMessage::ParseErrorMessage") for pt in pats for v in hir.pat_variants_all(pt)):
+                                        return True
+                            return False
+                        for iff in hir.nodes(db["body"], "If"):
+                            cnd = hir.strip(iff["cond"])
+                            if cnd.get("k") == "Unary" or not d_inspects(iff["cond"]):
+                                continue
+                            for rt in hir.nodes(iff["then"], "Ret"):
+                                rv = hir.strip(rt["e"]) if rt.get("e") else {}
+                                co = (rv.get("res") or {}).get("ctor_of") if rv.get("k") == "Path" else None
+                                if co and co not in keep:
                                     guard_ok = True
         out.add("parser::utility::affected", "a node that contains a syntax error is rebuilt, not reused", guard_ok, c.loc(advances[0]["sp"]),
                 "error recovery skips tokens up to the next synchronisation token, so the extent of an error node depends on any number "
@@ -1763,6 +1999,7 @@ def rule_reuse(prog):
         out.add("parser::utility::affected", "an Affected error hands back the input the parser was entered with", None, c.loc(aff["sp"]), "no Affected error construction found")
     # ---- (pairing)
     n_pp = 0
+    n_sites_any = 0
     for b in c.bodies:
         f = c.file_of(b["sp"])
         if not (f.endswith("parser.rs") or "/parser/" in f) or "/tests" in f or b["k"] == "closure":
@@ -1773,6 +2010,7 @@ def rule_reuse(prog):
                 r = hir.strip_ref(m["recv"])
                 if r.get("k") == "Field" and r["name"] == "inc_references":
                     (pushes if m["m"] == "push" else pops).append((m, parents))
+        n_sites_any += len(pushes) + len(pops)
         if not pushes:
             continue
         # is the push conditional on an Option parameter being Some?
@@ -1801,7 +2039,11 @@ def rule_reuse(prog):
                     "the push happens only for `this = Some(..)`, this pop happens %s: after a failed parse from scratch the stack has lost "
                     "an offset of an enclosing Reference, `get_old_reference()` is too small and later old nodes look aligned at "
                     "the wrong place" % ("only then too" if guarded(ps) else "always"), ("pairing",))
-    if n_pp == 0:
+    if n_pp == 0 and n_sites_any >= 2:
+        # push and pop sit in different functions (an enter/leave pair of a scope object): the pairing is not followed across them
+        out.add("parser", "inc_references is popped on an exit exactly when it was pushed on entry", None, "",
+                "push and pop of inc_references are in different functions", ("pairing",))
+    elif n_pp == 0:
         out.missing("inc_references push/pop sites")
     return out
 
@@ -1918,7 +2160,7 @@ def rule_error_owner(prog):
                     "the enclosing node; if that node is rebuilt while this one is reused unchanged, the error disappears (an edit that "
                     "does not even touch the expression removes a diagnostic)%s" % (b["name"], root,
                         "; unguarded reuse entry: affected(..) in %s" % bad_entry[0][0]["d"] if bad_entry else ""))
-    if n < 30:
+    if n < 10:
         out.missing("expect(..) calls in the parser (found %d)" % n)
     return out
 
